@@ -19,3 +19,71 @@ fields(
         "DirectoryHashContext.structure_hash_strings": "list[str]",
     }
 )
+
+fields(
+    {
+        # history.py
+        "MHLHistory.chain": "MHLChain?",
+        "MHLHistory.hash_lists": "list[MHLHashList]",
+        "MHLHistory.child_histories": "list[MHLHistory]",
+        "MHLHistory.child_history_mappings": "dict[str,MHLHistory]",
+        "MHLHistory.parent_history": "MHLHistory?",
+        "MHLHistory.asc_mhl_path": "str?",
+        # chain.py
+        "MHLChain.file_path": "str",
+        "MHLChain.generations": "list[MHLChainGeneration]",
+        "MHLChainGeneration.generation_number": "int",
+        "MHLChainGeneration.ascmhl_filename": "str?",
+        "MHLChainGeneration.hash_format": "str?",
+        "MHLChainGeneration.hash_string": "str?",
+        # hashlist.py
+        "MHLHashList.creator_info": "MHLCreatorInfo?",
+        "MHLHashList.process_info": "MHLProcessInfo",
+        "MHLHashList.media_hashes": "list[MHLMediaHash]",
+        "MHLHashList.media_hashes_path_map": "dict[str,MHLMediaHash]",
+        "MHLHashList.file_path": "str?",
+        "MHLHashList.generation_number": "int?",
+        "MHLHashList.referenced_hash_lists": "list[MHLHashList]",
+        "MHLHashList.hash_list_references": "list[MHLHashListReference]",
+        "MHLMediaHash.hash_entries": "list[MHLHashEntry]",
+        "MHLMediaHash.path": "str?",
+        "MHLMediaHash.file_size": "int?",
+        "MHLMediaHash.last_modification_date": "datetime?",
+        "MHLMediaHash.is_directory": "bool",
+        "MHLMediaHash.previous_path": "str?",
+        "MHLHashEntry.hash_string": "str",
+        "MHLHashEntry.structure_hash_string": "str?",
+        "MHLHashEntry.hash_format": "str",
+        "MHLHashEntry.hash_date": "datetime",
+        "MHLHashEntry.action": "str?",
+        "MHLHashEntry.media_hash": "MHLMediaHash?",
+        "MHLHashEntry.temp_generation_number": "int?",
+        "MHLHashEntry.temp_is_root_folder": "bool",
+        "MHLHashListReference.path": "str?",
+        "MHLHashListReference.reference_hash": "str?",
+        "MHLCreatorInfo.host_name": "str?",
+        "MHLCreatorInfo.tool": "MHLTool?",
+        "MHLCreatorInfo.creation_date": "str?",
+        "MHLCreatorInfo.authors": "list[MHLAuthor]",
+        "MHLCreatorInfo.location": "str?",
+        "MHLCreatorInfo.comment": "str?",
+        "MHLProcessInfo.process": "MHLProcess?",
+        "MHLProcessInfo.root_media_hash": "MHLMediaHash?",
+        "MHLProcessInfo.ignore_spec": "MHLIgnoreSpec?",
+        "MHLProcessInfo.hashlist_custom_basename": "str?",
+        "MHLTool.name": "str?",
+        "MHLTool.version": "str?",
+        "MHLProcess.process_type": "str",
+        "MHLProcess.name": "str?",
+        "MHLAuthor.name": "str?",
+        "MHLAuthor.email": "str?",
+        "MHLAuthor.phone": "str?",
+        "MHLAuthor.role": "str?",
+        # ignore.py
+        "MHLIgnoreSpec._ignore_list": "list[str]",
+        # generator.py
+        "MHLGenerationCreationSession.root_history": "MHLHistory",
+        "MHLGenerationCreationSession.new_hash_lists": "defaultdict[MHLHistory,MHLHashList]",
+        "MHLGenerationCreationSession.ignore_spec": "MHLIgnoreSpec",
+    }
+)
